@@ -773,15 +773,26 @@ Definition deliver_out (g : global) (src : peer) (out : list (peer * msg)) : glo
    iterations (query / HashSet order) or concern unrelated objects *)
 Definition msg_keys (m : msg) : list N :=
   match m with
-  | MSpawn u | MDelete u | MComp u _ _ => [u]
+  | MSpawn u | MDelete u => [u]
+  | MComp u _ v => u :: match v with VMapper joints _ => joints | _ => [] end
   | MParented c p => [c; p]
   | MMaterial a _ | MAsset _ a _ _ => [a]
   | MPromote | MNewHost _ | MReqInit | MFinInit => []
   end.
 Definition control_msg (m : msg) : bool :=
   match m with MPromote | MNewHost _ | MReqInit | MFinInit => true | _ => false end.
+Definition disjoint_keys (a b : msg) : bool :=
+  forallb (fun k => negb (memN k (msg_keys b))) (msg_keys a).
+(* two messages whose handling commutes (up to the order inside Children lists): updates of
+   different components (of the same or different entities), links of different children,
+   anything about disjoint sets of entities / assets *)
 Definition independent (a b : msg) : bool :=
-  negb (control_msg a) && negb (control_msg b) && forallb (fun k => negb (memN k (msg_keys b))) (msg_keys a).
+  negb (control_msg a) && negb (control_msg b) &&
+  match a, b with
+  | MComp u t (VN _), MComp u' t' (VN _) => negb (u =? u') || negb (t =? t')
+  | MParented c _, MParented c' _ => negb (c =? c')
+  | _, _ => disjoint_keys a b
+  end.
 
 Inductive step :=
 | StApp (p : peer) (op : app_op)
